@@ -103,7 +103,7 @@ where
     + Scheduler<FutureTask<ItemFuture, (Log, u32), NormalReturn<()>>>
     + Scheduler<RepeatTask<(Log, u32, usize)>>,
 {
-  let delay = spec.delay.map(Duration::from_millis);
+  let delay = spec.delay.map(Duration::from_micros);
   log.mark(id, "scheduled", 0);
   match &spec.kind {
     Kind::Once => handle_fns(sched.schedule(OnceTask::new(once_body, (log.clone(), id)), delay)),
@@ -202,7 +202,7 @@ pub fn judge(c: &Case, o: &Result<Obs, String>) -> Option<(String, String, serde
              "log": evs.iter().map(|e| format!("{}@{}ns:{:?}", e.seq, e.vt, e.k)).collect::<Vec<_>>()})
     };
     let sched_vt = evs.iter().find(|e| matches!(e.k, K::Mark("scheduled", _))).map_or(0, |e| e.vt);
-    let delay = t.delay.unwrap_or(0) * MS;
+    let delay = t.delay.unwrap_or(0) * 1000;
     let runs: Vec<&&Ev> = evs.iter().filter(|e| matches!(e.k, K::Mark("run", _) | K::Mark("rep", _))).collect();
     let cancel = o.cancels.iter().find(|(cid, _, _)| *cid == id);
     match &t.kind {
@@ -273,7 +273,8 @@ pub fn random_case(r: &mut Rng) -> Case {
         4 => Kind::RepeatImmediate([1, 5][r.below(2)], 1 + r.below(4)),
         _ => Kind::Repeat([1, 5][r.below(2)], 1 + r.below(4)),
       },
-      delay: [None, Some(0), Some(1), Some(5)][r.below(4)],
+      // microseconds: none, zero, sub-millisecond, 1 ms, 5 ms
+      delay: [None, Some(0), Some(400), Some(999), Some(1000), Some(5000)][r.below(6)],
       cancel_at: if r.chance(2, 3) { Some(r.below(12)) } else { None },
     })
     .collect();
